@@ -68,7 +68,7 @@ FileStyles(o, fmt, file) ==
               [] o.kind = "flag"   -> {"native", "string"}
               [] o.kind = "count"  -> {"native", "string"}
               [] o.kind = "append" -> {"list"} \cup (IF Len(file.v) = 1 THEN {"scalar"} ELSE {})
-       ELSE CASE o.kind = "store"  -> IF file.v = <<1>> THEN {"plain", "quoted"} ELSE {"quoted"}
+       ELSE CASE o.kind = "store"  -> IF file.v \in {<<1>>, <<0>>, <<3>>} THEN {"plain", "quoted"} ELSE {"quoted"}
               [] o.kind = "flag"   -> {"plain"}
               [] o.kind = "count"  -> {"plain"}
               [] o.kind = "append" -> {"pylist", "multiline"} \cup (IF Len(file.v) = 1 THEN {"scalar"} ELSE {})
